@@ -84,6 +84,40 @@ func runC12(c *mon.Ctx) {
 			k.Class("extreme-side-bearings")
 		}
 
+		if co, ok := f.Outlines.(*cff.Outlines); ok && r.IntN(4) == 0 {
+			// pen moves that draw nothing are legal in a charstring and are
+			// points of the glyph like any other for both kinds of boxes: a
+			// trailing moveto beyond the drawn part, two movetos in a row,
+			// a glyph that is a single moveto
+			for i, g := range co.Glyphs {
+				if i == 0 || r.IntN(3) != 0 {
+					continue
+				}
+				// extremes of the drawn part; glyphs near the limits of the
+				// coordinate range are left alone
+				lo, hi := 0.0, 0.0
+				for _, cmd := range g.Cmds {
+					if cmd.Op == cff.OpMoveTo || cmd.Op == cff.OpLineTo || cmd.Op == cff.OpCurveTo {
+						for _, a := range cmd.Args {
+							lo, hi = math.Min(lo, a), math.Max(hi, a)
+						}
+					}
+				}
+				if lo < -8000 || hi > 8000 {
+					continue
+				}
+				switch r.IntN(3) {
+				case 0:
+					g.Cmds = append(g.Cmds, cff.GlyphOp{Op: cff.OpMoveTo, Args: []float64{hi + float64(50+r.IntN(500)), lo - float64(50+r.IntN(300))}})
+				case 1:
+					g.Cmds = append([]cff.GlyphOp{{Op: cff.OpMoveTo, Args: []float64{lo - float64(50+r.IntN(300)), hi + float64(50+r.IntN(300))}}}, g.Cmds...)
+				default:
+					g.Cmds = []cff.GlyphOp{{Op: cff.OpMoveTo, Args: []float64{float64(r.IntN(900) - 300), float64(r.IntN(900) - 300)}}}
+				}
+				k.Class("cff:pen-move-without-segment")
+			}
+		}
+
 		// ---- queries against outlines and each other ----
 		var boxes []funit.Rect16
 		var widths, widthsPDF []float64
@@ -197,6 +231,19 @@ func runC12(c *mon.Ctx) {
 				if float64(b.LLx) > mnx || float64(b.URx) < mxx || float64(b.LLy) > mny || float64(b.URy) < mxy {
 					k.Fail("mismatch", "query:point-outside-bbox", "glyph %d: box %v does not contain end points [%v,%v]x[%v,%v] (%s)", i, b, mnx, mxx, mny, mxy, desc)
 					return
+				}
+				// the same points in PDF glyph space (simple fonts with an
+				// axis-parallel font matrix)
+				if fm := f.FontMatrix; !o.IsCIDKeyed() && fm[1] == 0 && fm[2] == 0 && fm[0] > 0 && fm[3] > 0 {
+					pb := o.GlyphBBoxPDF(fm, glyph.ID(i))
+					tx, ty := fm[4]*1000, fm[5]*1000
+					want := rect.Rect{LLx: mnx*fm[0]*1000 + tx, LLy: mny*fm[3]*1000 + ty, URx: mxx*fm[0]*1000 + tx, URy: mxy*fm[3]*1000 + ty}
+					tol := 1e-6 * (1 + math.Abs(want.LLx) + math.Abs(want.URx) + math.Abs(want.LLy) + math.Abs(want.URy))
+					if math.Abs(pb.LLx-want.LLx) > tol || math.Abs(pb.LLy-want.LLy) > tol || math.Abs(pb.URx-want.URx) > tol || math.Abs(pb.URy-want.URy) > tol {
+						k.Fail("mismatch", "query:GlyphBBoxPDF-vs-points", "glyph %d: GlyphBBoxPDF=%v, the end points under the font matrix %v span %v (%s)", i, pb, fm, want, desc)
+						return
+					}
+					k.Class("bbox-pdf-vs-points:cff")
 				}
 				if mnx-float64(b.LLx) >= 1 || float64(b.URx)-mxx >= 1 || mny-float64(b.LLy) >= 1 || float64(b.URy)-mxy >= 1 {
 					k.Fail("mismatch", "query:bbox-not-tight", "glyph %d: box %v is more than one unit away from the extreme end points [%v,%v]x[%v,%v] (%s)", i, b, mnx, mxx, mny, mxy, desc)
@@ -352,5 +399,5 @@ func runC12(c *mon.Ctx) {
 			k.Sample(desc + fmt.Sprintf(" advanceWidthMax=%d numberOfHMetrics=%d", maxAdv, numH))
 		}
 	})
-	c.Require("derived-fields:glyf", "derived-fields:cff", "derived-fields:cid", "fixed-pitch=true", "fixed-pitch=false", "first-last-char-checked", "bbox-vs-points:cff", "bbox-vs-points:glyf", "hmtx-tail=0", "hmtx-tail=3", "extreme-side-bearings", "head.modified-unset=true", "head.created-unset=true")
+	c.Require("derived-fields:glyf", "derived-fields:cff", "derived-fields:cid", "fixed-pitch=true", "fixed-pitch=false", "first-last-char-checked", "bbox-vs-points:cff", "bbox-vs-points:glyf", "hmtx-tail=0", "hmtx-tail=3", "extreme-side-bearings", "head.modified-unset=true", "head.created-unset=true", "cff:pen-move-without-segment", "bbox-pdf-vs-points:cff")
 }
